@@ -184,6 +184,17 @@ static void temp_vector_cb(const uint8_t *len, int k, void *u)
 		if (vf_case("%s %s temp lengths k=%d [%s] skip=%d", M->name, t->what, k, vf_hex(b->t_len, b->t_n), s))
 			emit_and_check(b, 1, 1);
 	}
+	/* the count field larger than the last used temp symbol (zero lengths up to the count; 19 is the whole temp alphabet) */
+	{
+		int tn;
+		for (tn = t->maxt + 2; tn <= 19; tn += (tn < t->maxt + 3 ? 1 : 19 - tn > 0 ? 19 - tn : 1)) {
+			b->t_n = tn;
+			b->t_skip = (tn > 3 && b->t_len[3] == 0 && t->maxt >= 3) ? 1 : 0;
+			if (vf_case("%s %s temp lengths k=%d [%s] count=%d (last used %d)", M->name, t->what, k, vf_hex(b->t_len, t->maxt + 1), tn, t->maxt))
+				emit_and_check(b, 1, 1);
+		}
+		b->t_n = t->maxt + 1;
+	}
 }
 
 static void vary_temp(ref_lh_block *b, const char *what, int full)
